@@ -242,6 +242,18 @@ def gen_l(r, stats, malformed):
             rs["bf"] = "S" + "ff" * nb      # padding bits set in the saved string
     else:
         stats["honest"] += 1
+    # per-file 'completed' / 'priority' (resume_load_file_priorities): plausible values in the honest stream, corrupted ones
+    # (negative, string, huge, between the file's and the torrent's chunk count, just above either) in the malformed one
+    fch = [z - a for (a, z) in rng]
+    if r.random() < (0.6 if malformed else 0.3):
+        def cv(k):
+            if not malformed:
+                return str(r.randint(0, fch[k]))
+            return str(r.choice([0, fch[k], fch[k] + 1, np_, np_ - 1, np_ + 1, max(fch[k] + 1, (fch[k] + np_) // 2), -1, -2 ** 40,
+                                 2 ** 31, 2 ** 32, 2 ** 40, 9223372036854775807, "s", "n"]))
+        rs["comp"] = ",".join(cv(k) for k in range(nf))
+        rs["prio"] = ",".join(str(r.choice([0, 1, 2] if not malformed else [-1, 0, 1, 2, 3, 99, 2 ** 40, "s", "n"])) for _ in range(nf))
+        stats["file_priorities"] += 1
     return "%s %d %d | %s | %s | %s" % (r.choice(["L", "L", "Lq"]), pl, ld, " ".join(("%d,%d,%d" % f[:3]) + (",p" if f[3] else "") for f in files),
                                        " ".join("%s=%s" % kv for kv in rs.items()),
                                        " ".join(map(str, bad)) or "-")
@@ -322,8 +334,11 @@ def gen_t(r, stats):
             lens_s.append("%ds" % l)
         else:
             lens_s.append(str(l))
-    return "%s %d %s | %s | %s | %s%s" % (r.choice(["T", "T", "Tq"]), pl, " ".join(lens_s), ",".join(map(str, missing)) or "-", " ".join(ops),
-                                         " ".join(pert), (" lose=" + ",".join(map(str, lose))) if lose else "")
+    rs = ""
+    if "save" in ops and r.random() < 0.15:
+        rs = r.choice([" resave", " resave2"]); stats["t_resave_before_check"] += 1
+    return "%s %d %s | %s | %s | %s%s%s" % (r.choice(["T", "T", "Tq"]), pl, " ".join(lens_s), ",".join(map(str, missing)) or "-", " ".join(ops),
+                                           " ".join(pert), (" lose=" + ",".join(map(str, lose))) if lose else "", rs)
 
 
 # the recorded known finding (class resume-active-rewrite-not-detected): saved while active -> mtime ~3 -> a later
@@ -340,6 +355,14 @@ T_HAND = [
     "Tq 2048 8192 8192 8192 | - | save | D = D",
     "Tq 2048 8192 8192 | - | save | D D",
     "T 1025 1127500 | * | start dl stop save | = lose=%7",
+    # crash -> load -> session saved again before the requested check is done -> crash -> load
+    "T 2048 8192 8192 | 2 | start dl stop save | = = lose=2 resave",
+    "Tq 2048 8192 8192 | 2,5 | start dl stop save | = = lose=5 resave2",
+    "T 2048 8192 8192 | 2 | start dl stop save | = W lose=2 resave",
+    "T 2048 8192 8192 | - | save | = D resave",
+    # complete and still active (seeding) at the save: real mtimes are recorded, a later rewrite is noticed
+    "T 2048 8192 8192 | 2 | start dl save | = W",
+    "T 2048 8192 8192 | 2 | start dl adv20 save | W =",
 ]
 
 KNOWN_FINDING_CASES = [
@@ -358,6 +381,9 @@ HAND = [
     "L 2048 1000 | 8192,8192,500 0,-1,0 8192,8192,500 | top=m files=500,-2,500 bf=V8 unc=none ts=none | -",
     "L 2048 1000 | 7000,7000,500 1192,-1,0,p 8192,8192,500 | top=m files=500,0,500 bf=V8 unc=none ts=none | 5",
     "L 2048 1000 | 7000,7000,501 1192,-1,0,p 8192,8192,500 | top=m files=500,n,500 bf=V8 unc=none ts=none | 1",
+    # corrupted per-file completed counters: above the file's chunk count but within the torrent's
+    "L 2048 1000 | 4096,4096,500 12288,12288,500 | top=m files=500,500 bf=V8 comp=5,6 prio=1,2 unc=none ts=none | -",
+    "L 2048 1000 | 4096,4096,500 12288,12288,500 | top=m files=500,500 bf=V8 comp=8,9 prio=-1,99 unc=none ts=none | -",
 ]
 
 # repaired in /repo 89d42c0 (resume object that threw after a partial application): regression cases
@@ -371,8 +397,8 @@ OPEN_DEFECT_WITNESSES = [
 
 def gen(seed, tier):
     r = random.Random(seed * 104729 + 10)
-    keys = ["file_missing", "file_intact", "file_resized", "file_padding", "malformed", "honest", "corpus", "hand", "regression", "known_finding",
-            "t_stopped_complete", "t_download_then_save", "t_active_partial", "t_two_rounds", "t_other", "t_symlinked_file", "t_many_completions"]
+    keys = ["file_missing", "file_intact", "file_resized", "file_padding", "file_priorities", "malformed", "honest", "corpus", "hand", "regression", "known_finding",
+            "t_stopped_complete", "t_download_then_save", "t_active_partial", "t_two_rounds", "t_other", "t_symlinked_file", "t_many_completions", "t_resave_before_check"]
     stats = {k: 0 for k in keys}
     cases = []
     cdir = os.path.join(os.path.dirname(os.path.dirname(os.path.abspath(__file__))), "corpus", "C10")
@@ -416,9 +442,15 @@ def oracle(case, full):
     if case.startswith("T ") or case.startswith("Tq "):
         if f.get("sound") != "1":
             sec = case.split("|")
-            pert = [x for x in sec[3].split() if not x.startswith("lose=")]
+            pert = [x for x in sec[3].split() if not x.startswith("lose=") and not x.startswith("resave")]
             saved = f.get("saved", "")
-            if any(k < len(saved) and saved[k] == "A" and p == "W" for k, p in enumerate(pert)):
+            sbf = f.get("sbf", "-")
+            complete = sbf.startswith("V") and sbf != "V0"      # the bitfield was uniform and non-empty: everything was complete at the save
+            if f.get("resaved_unc") == "erased" and "lose=" in case and f.get("unc", "none") != "none":
+                bad.append(("resume-save-before-check-erases-uncertain",
+                            "crash, load, session saved again before the requested check was done (uncertain list erased), restart: a piece lost in the first crash is set and was never rechecked: bits=%s valid=%s"
+                            % (f.get("bits"), f.get("ssl"))))
+            elif not complete and any(k < len(saved) and saved[k] == "A" and p == "W" for k, p in enumerate(pert)):
                 bad.append(("resume-active-rewrite-not-detected",
                             "saved while active (mtime ~3), file rewritten with the same size afterwards: load + check keeps pieces that are not valid: bits=%s valid=%s"
                             % (f.get("bits"), f.get("ssl"))))
@@ -426,7 +458,7 @@ def oracle(case, full):
                 bad.append(("resume-unsound", "after save / crash / perturbation / load / check a set piece is not valid on disk: bits=%s valid=%s" % (f.get("bits"), f.get("ssl"))))
         # untouched, fully synced files keep their progress WITHOUT rehashing: nothing but the uncertain pieces is rechecked
         sec = case.split("|")
-        pert = [x for x in sec[3].split() if not x.startswith("lose=")]
+        pert = [x for x in sec[3].split() if not x.startswith("lose=") and not x.startswith("resave")]
         saved = f.get("saved", "-")
         if saved != "-" and set(saved) == {"R"} and all(p == "=" for p in pert):
             unc = set() if f.get("unc", "none") in ("none", "empty") else set(int(x) for x in f["unc"].split("!")[0].split(",") if x)
